@@ -13,7 +13,7 @@ use serde_json::{json, Value};
 use std::collections::{BTreeMap, HashMap, HashSet};
 use std::sync::Mutex;
 
-pub const MAIN_TEXTS: [&str; 10] = [
+pub const MAIN_TEXTS: [&str; 11] = [
     "",
     "lda",
     "lda #",
@@ -24,6 +24,8 @@ pub const MAIN_TEXTS: [&str; 10] = [
     ".import * from \"other.asm\"\na: nop\njsr foo\njmp a\n",
     "// é💾 comment\na: lda #1 // é💾\n.text \"é💾\"\njmp a\n",
     "a: nop\r\ns: {\r\n  a: lda a\r\n  jmp super.a\r\n}\r\njmp s.a\r\n",
+    // an expression that continues on the next line (tokens spanning lines)
+    ".const k = 1 + /* one\n  two */ 13\na: lda #k\n  .byte 1 +\n2\njmp a\n",
 ];
 pub const OTHER_TEXTS: [&str; 3] = ["foo: nop\n", "foo: nop\nbar: rts\n", "foo: {\n"];
 pub const STRAY_TEXTS: [&str; 1] = ["lda #1\nzz: nop\n"];
@@ -357,14 +359,16 @@ fn check_ranges(v: &Value, text_of_uri: &dyn Fn(&str) -> Option<String>, default
     walk(v, default_uri, text_of_uri, problems);
 }
 
-fn check_tokens(v: &Value, problems: &mut Vec<String>) {
+fn check_tokens(v: &Value, text: Option<&str>, problems: &mut Vec<String>) {
     if let Some(data) = v.get("data").and_then(|d| d.as_array()) {
         let nums: Vec<u64> = data.iter().filter_map(|x| x.as_u64()).collect();
         if nums.len() % 5 != 0 {
             problems.push("semantic token data length not a multiple of 5".into());
             return;
         }
+        let lines: Option<Vec<&str>> = text.map(|t| t.split('\n').collect());
         let mut prev_len = 0u64;
+        let (mut line, mut start) = (0u64, 0u64);
         for (i, t) in nums.chunks(5).enumerate() {
             let (dl, ds, len) = (t[0], t[1], t[2]);
             if len == 0 {
@@ -374,6 +378,20 @@ fn check_tokens(v: &Value, problems: &mut Vec<String>) {
                 problems.push(format!("semantic token {} overlaps its predecessor (deltaStart {} < previous length {})", i, ds, prev_len));
             }
             prev_len = len;
+            // absolute position: a token lies inside one line of the document
+            line += dl;
+            start = if dl == 0 { start + ds } else { ds };
+            if let Some(lines) = &lines {
+                match lines.get(line as usize) {
+                    None => problems.push(format!("semantic token {} is on line {} beyond the document ({} lines)", i, line, lines.len())),
+                    Some(l) => {
+                        let width = (utf16_len(l).max(l.len())) as u64;
+                        if start.saturating_add(len) > width {
+                            problems.push(format!("semantic token {} exceeds its line (start {} length {} on a line of {} characters)", i, start, len, width));
+                        }
+                    }
+                }
+            }
         }
     }
 }
@@ -432,7 +450,7 @@ pub fn observe(history: &[Event], battery: &[Probe], buffers: &Buffers) -> Obser
                 let mut problems = vec![];
                 check_ranges(&v, &text_of, &uri(FILES[p.file]), &mut problems);
                 if p.method == "textDocument/semanticTokens/full" {
-                    check_tokens(&v, &mut problems);
+                    check_tokens(&v, text_of(&uri(FILES[p.file])).as_deref(), &mut problems);
                 }
                 for pr in problems {
                     obs.malformed.push((p.clone(), pr));
@@ -680,7 +698,7 @@ pub fn run(ctx: &Ctx, replay: Option<&Value>) -> i32 {
         closure,
         &[
             "stdio framing is exercised only by the conformance replays against the real `mos lsp` process",
-            "texts are a fixed ladder of 10+3+1 buffers (thorough: plus every token-boundary prefix of the two-scope program); positions are byte columns as the server interprets them",
+            "texts are a fixed ladder of 11+3+1 buffers (thorough: plus every token-boundary prefix of the two-scope program); positions are byte columns as the server interprets them",
             "quick: depth bound 3 and reduced battery; thorough: search to closure",
         ],
     )
